@@ -480,6 +480,12 @@ def export_to_zipfile(jobs, zipfile, path=None):
                     filename=os.path.join(root, fn),
                     arcname=os.path.join(dst, os.path.relpath(root, src), fn),
                 )
+            if not dirnames and not filenames:
+                # An empty directory needs a member of its own.
+                zipfile.write(
+                    filename=root,
+                    arcname=os.path.join(dst, os.path.relpath(root, src)),
+                )
 
     return _export_jobs(jobs=jobs, path=path, copytree=copytree_to_zip)
 
@@ -918,6 +924,9 @@ class _CopyFromZipFileExecutor:
 
         for name in self.names:
             fn_dst = self.job.fn(os.path.relpath(name, self.root))
+            if name.endswith("/"):  # directory member
+                _mkdir_p(fn_dst)
+                continue
             _mkdir_p(os.path.dirname(fn_dst))
             with open(fn_dst, "wb") as dst:
                 dst.write(self.zipfile.read(name))
